@@ -32,6 +32,11 @@ Reading guide (property text → theorem)
   far); the lazy `pthread_key_create` failing → `tls_fail_changes_nothing` (set / replace / get), `current_fail_releases_once`
   (`p_uthread_current`: NULL, the fresh block released once).  `free_only_by_unref` names these two frees as the only ones that are
   not an unref.
+* the library thread whose own TLS store does not take (`pp_uthread_proxy`, `is_stored == FALSE`; events `startUnstored`, `retUnstored`;
+  invariant `PInv`) → `start_unstored_keeps_reference`, `proxy_unstored_releases_once`, `unstored_thread_end_leaves_handle`; observations
+  about the code as it is, under faults outside the property's quantifier: `exit_code_lost_when_slot_unstored`,
+  `join_of_unstored_yields_zero` (`p_uthread_exit` in such a thread returns; the join yields 0) and — `pthread_setspecific` reporting an
+  error (`storeFail`) — `replace_setspecific_failure_destroys_twice`, `set_setspecific_failure_is_noop`.
 * the independent executable reference `PV/Spec/UThread.lean` (the spec column of the differential run) answers
   exactly as the machine does → `spec_refinement_step`, `spec_refinement`, `spec_refinement_disciplined`.
 * references attributed to the threads that hold them (`PV.Model.UThreadOwners`) → `user_refs_are_held`,
@@ -65,18 +70,21 @@ theorem freed_iff_no_holder {s : State} (hr : DReach s) (h : Nat) (hw : (s.hdl h
     | true => rfl
     | false => have := hi.hL h hw hfr; omega
 
-/-- only `unref` — explicit, or the library key's destructor at thread end — frees a handle anybody ever held; the only
+/-- only `unref` — explicit, the library key's destructor at thread end, or the proxy's own unref when the thread's slot was
+    never stored (`retUnstored`) — frees a handle anybody ever held; the only
     other frees are the ones inside a creation / a `p_uthread_current` that fails (`create_fail_releases_once`,
     `current_fail_releases_once`: a block nobody was given) -/
 theorem free_only_by_unref {s s' : State} {e : Ev} (hs : step s e = .ok s') (hne : s'.freeLog ≠ s.freeLog) :
-    (∃ a h, e = .unref a h) ∨ (∃ t, e = .threadEnd t) ∨ (∃ a, e = .createFail a) ∨ (∃ t, e = .currentFail t) := by
+    (∃ a h, e = .unref a h) ∨ (∃ t, e = .threadEnd t) ∨ (∃ a, e = .createFail a) ∨ (∃ t, e = .currentFail t) ∨
+    (∃ t h, e = .retUnstored t h) := by
   apply Classical.byContradiction
   intro hc
   have hc' := not_or.mp hc
   have hc'' := not_or.mp hc'.2
   have hc3 := not_or.mp hc''.2
+  have hc4 := not_or.mp hc3.2
   exact hne (freeLog_frame hs (fun a h e' => hc'.1 ⟨a, h, e'⟩) (fun t e' => hc''.1 ⟨t, e'⟩) (fun a e' => hc3.1 ⟨a, e'⟩)
-    (fun t e' => hc3.2 ⟨t, e'⟩))
+    (fun t e' => hc4.1 ⟨t, e'⟩) (fun t h e' => hc4.2 ⟨t, h, e'⟩))
 
 /-- an explicit `unref` frees the handle iff it drops the last reference (the count it sees is 1 = the
     number of holders), and then it frees exactly that handle -/
@@ -127,7 +135,7 @@ theorem threadEnd_frees_own_handle_only {s s' : State} {t : Nat} (hr : Reach s) 
 theorem no_use_after_free {s : State} {e : Ev} (hr : DReach s) (hp : Permitted s e) :
     ∀ h, step s e ≠ .error (.useAfterFree h) := by
   obtain ⟨hk, hi, hf⟩ := hr.inv
-  exact step_no_uaf hf hi hk hp
+  exact step_no_uaf hf hi hk hr.reach.pinv hp
 
 /-- … hence a disciplined history never faults on a handle anywhere along the way -/
 theorem no_use_after_free_run : ∀ {es : List Ev} {s : State}, DReach s → Disciplined s es → ∀ h, run s es ≠ .error (.useAfterFree h)
@@ -174,7 +182,8 @@ theorem freed_handle_not_permitted {s : State} (hr : DReach s) {h : Nat} (hf : (
     `p_uthread_join` is still possible) and changes nothing else -/
 theorem join_fail_code {s s' : State} {a h : Nat} (hr : Reach s) (hs : step s (.joinFail a h) = .ok s') :
     s'.joinLog = s.joinLog ++ [(a, h, (s.hdl h).retCode)] ∧
-    (s.hdl h).joinable = true ∧ (s.hdl h).ours = true ∧ (s.thr (s.hdl h).thread).handle = some h ∧
+    (s.hdl h).joinable = true ∧ (s.hdl h).ours = true ∧
+    ((s.thr (s.hdl h).thread).handle = some h ∨ (s.thr (s.hdl h).thread).proxy = some h) ∧
     (((s.thr (s.hdl h).thread).phase = .created ∨ (s.thr (s.hdl h).thread).phase = .running) → (s.hdl h).retCode = 0) ∧
     (((s.thr (s.hdl h).thread).phase = .finished ∨ (s.thr (s.hdl h).thread).phase = .ended) →
       (s.hdl h).retCode = ((s.thr (s.hdl h).thread).exitArg).getD 0) ∧
@@ -185,9 +194,15 @@ theorem join_fail_code {s s' : State} {a h : Nat} (hr : Reach s) (hs : step s (.
     cases ho : (s.hdl h).ours with
     | true => rfl
     | false => rw [hi.hJ h hw ho] at hj; cases hj
-  have hlink := hi.hO h ho
-  have hjc := hi.jC _ h hlink
-  exact ⟨rfl, hj, ho, hlink, fun hp => (hjc.1 hp).1, hjc.2, rfl, rfl, rfl, rfl, rfl⟩
+  cases hor : (s.hdl h).orphan with
+  | false =>
+    have hlink := hi.hO h ho hor
+    have hjc := hi.jC _ h hlink
+    exact ⟨rfl, hj, ho, .inl hlink, fun hp => (hjc.1 hp).1, hjc.2, rfl, rfl, rfl, rfl, rfl⟩
+  | true =>
+    have hpx := hr.pinv.pO h hor
+    obtain ⟨_, p2, _, _, _, _, _, p8, _, _⟩ := hr.pinv.pP _ h hpx
+    exact ⟨rfl, hj, ho, .inr hpx, fun _ => p8, fun _ => by rw [p8, p2]; rfl, rfl, rfl, rfl, rfl, rfl⟩
 
 /-- `p_uthread_current` of a thread without a stored handle, when the fresh handle cannot be stored (the lazy creation of
     the library key's native key fails): NULL, and the `PUThreadBase` block allocated meanwhile is released exactly once
@@ -226,15 +241,72 @@ theorem tls_fail_changes_nothing {s s' : State} {t k : Nat} {g : Bool} (hs : ste
   obtain ⟨_, _, _, _, hp, rfl⟩ := tlsFail_ok hs
   exact ⟨hp, fun t' => by simp [valueOf, hp], rfl, rfl, rfl, rfl, rfl, rfl, rfl, rfl, rfl, rfl, rfl⟩
 
+/-! ## a library thread whose own TLS store does not take (`pp_uthread_proxy`, `is_stored == FALSE`) -/
+
+/-- the proxy path on which nothing is stored: the thread runs its function with an empty library slot, still holding its
+    reference to the handle (count and holders unchanged); for the library it is an unknown thread from now on -/
+theorem start_unstored_keeps_reference {s s' : State} {t : Nat} (hr : Reach s) (hs : step s (.startUnstored t) = .ok s') :
+    ∃ h, (s.thr t).handle = some h ∧ (s'.thr t).proxy = some h ∧ (s'.thr t).handle = none ∧ (s'.thr t).phase = .running ∧
+      valueOf s' t 0 = 0 ∧ (s'.hdl h).refCount = (s.hdl h).refCount ∧ holders (s'.hdl h) = holders (s.hdl h) ∧
+      (s'.hdl h).threadRef = true ∧ (s'.hdl h).freed = false ∧ s'.tls = s.tls ∧ s'.freeLog = s.freeLog := by
+  have hr' : Reach s' := .step _ hr hs
+  obtain ⟨h, hph, _, hh, _, hv, hf, rfl⟩ := startUnstored_ok hs
+  have hpx : ((upd s.thr t { s.thr t with phase := .running, handle := none, proxy := some h }) t).proxy = some h := by simp [upd]
+  have := (hr'.pinv.pP t h hpx).2.2.2.2.2.2.2.2.2 (by simp [upd])
+  refine ⟨h, hh, by simp [upd], by simp [upd], by simp [upd], hv, by simp [upd], by simp [upd, holders], this, by simp [upd, hf], rfl, rfl⟩
+
+/-- **the handle of such a thread is released exactly once, whatever the order of creator unref / join / thread end.**
+    When the thread function returns, the proxy gives up the thread's own reference itself (`retUnstored`): the handle was
+    alive, the thread's reference disappears, the users' references are untouched, and the block is freed by this very step
+    iff no user reference is outstanding — otherwise by the `unref` that drops the last one (`unref_frees_iff_last`,
+    `freed_iff_no_holder`), never twice (`free_once`); no TLS destructor will ever see the handle
+    (`unstored_thread_end_leaves_handle`) -/
+theorem proxy_unstored_releases_once {s s' : State} {t h : Nat} (hr : Reach s) (hs : step s (.retUnstored t h) = .ok s') :
+    (s.thr t).proxy = some h ∧ (s.hdl h).thread = t ∧ (s.hdl h).freed = false ∧ (s.hdl h).threadRef = true ∧
+    (s'.hdl h).threadRef = false ∧ (s'.hdl h).userRefs = (s.hdl h).userRefs ∧
+    s'.freeLog = (if (s.hdl h).userRefs = 0 then s.freeLog ++ [h] else s.freeLog) ∧
+    ((s'.hdl h).freed = true ↔ (s.hdl h).userRefs = 0) ∧ s'.freeLog.Nodup ∧ h ∉ s.freeLog ∧
+    (s'.thr t).phase = .finished ∧ s'.tls = s.tls ∧ s'.dtorLog = s.dtorLog := by
+  have hr' : Reach s' := .step _ hr hs
+  obtain ⟨hk, hi⟩ := hr.inv
+  obtain ⟨hc, hpx, s1, hu, rfl⟩ := retUnstored_ok hs
+  obtain ⟨_, _, _, p4, _, _, _, _, _, p10⟩ := hr.pinv.pP t h hpx
+  have htr := p10 hc.1
+  obtain ⟨hf, hcase⟩ := unrefCore_ok hu
+  have hR := hi.hR h hf
+  have hnot : h ∉ s.freeLog := by intro hm; rw [(hi.fL h).mp hm] at hf; cases hf
+  simp only [holders, htr, if_true] at hR
+  rcases hcase with ⟨hcn, rfl⟩ | ⟨hcn, rfl⟩
+  · have h0 : (s.hdl h).userRefs = 0 := by simp only [unrefFreesWhenOldIs] at hcn; omega
+    exact ⟨hpx, p4, hf, htr, by simp [upd, decd], by simp [upd, decd], by simp [h0], by simp [upd, h0], hr'.inv.2.fN, hnot,
+      by simp [upd], rfl, rfl⟩
+  · have h0 : ¬ (s.hdl h).userRefs = 0 := by simp only [unrefFreesWhenOldIs] at hcn; omega
+    exact ⟨hpx, p4, hf, htr, by simp [upd, decd], by simp [upd, decd], by simp [h0], by simp [upd, decd, hf, h0], hr'.inv.2.fN, hnot,
+      by simp [upd], rfl, rfl⟩
+
+/-- the end of such a thread frees at most the handle in its library cell (one made by `p_uthread_current` meanwhile), never
+    the handle it was created with: no destructor is registered for that one -/
+theorem unstored_thread_end_leaves_handle {s s' : State} {t h : Nat} (hr : Reach s) (hpx : (s.thr t).proxy = some h)
+    (hs : step s (.threadEnd t) = .ok s') : s'.freeLog = s.freeLog ∨ ∃ h', h' ≠ h ∧ s'.freeLog = s.freeLog ++ [h'] := by
+  rcases threadEnd_frees_own_handle_only hr hs with h1 | ⟨n, hp, hv, _, _, hfl⟩
+  · exact .inl h1
+  · refine .inr ⟨_, ?_, hfl⟩
+    intro e
+    have := hr.pinv.pS t n (hr.inv.1.kP 0 n hp).2.1 hv
+    rw [e, (hr.pinv.pP t h hpx).2.2.2.2.1] at this; cases this
+
 /-! ## join and exit code -/
 
-/-- `p_uthread_join` on a joinable handle is possible only once its thread has ended, and yields the
+/-- (a thread started by `startUnstored` has no record pointing to its handle: it is *proxied* for it; its `exitArg` is `none`
+    and the code is 0, `join_of_unstored_yields_zero`)
+    `p_uthread_join` on a joinable handle is possible only once its thread has ended, and yields the
     argument of the `p_uthread_exit` call that ended it, 0 if the function simply returned; on a
     handle that is not joinable (detached, or a thread the library did not create) it yields −1 -/
 theorem join_code {s s' : State} {a h : Nat} (hr : Reach s) (hs : step s (.join a h) = .ok s') :
     s'.joinLog = s.joinLog ++ [(a, h, if (s.hdl h).joinable = true then ((s.thr (s.hdl h).thread).exitArg).getD 0 else -1)] ∧
     ((s.hdl h).joinable = true →
-      (s.thr (s.hdl h).thread).phase = .ended ∧ (s.thr (s.hdl h).thread).handle = some h ∧ (s.hdl h).ours = true) ∧
+      (s.thr (s.hdl h).thread).phase = .ended ∧
+      ((s.thr (s.hdl h).thread).handle = some h ∨ (s.thr (s.hdl h).thread).proxy = some h) ∧ (s.hdl h).ours = true) ∧
     ((s.hdl h).ours = false → (s.hdl h).joinable = false) := by
   obtain ⟨_, hi⟩ := hr.inv
   obtain ⟨_, _, hw, _, hcase⟩ := join_ok hs
@@ -245,9 +317,15 @@ theorem join_code {s s' : State} {a h : Nat} (hr : Reach s) (hs : step s (.join 
       cases ho : (s.hdl h).ours with
       | true => rfl
       | false => rw [hnotours ho] at hj; cases hj
-    have hlink := hi.hO h ho
-    have := (hi.jC _ h hlink).2 (.inr hph)
-    exact ⟨by simp [hj, this], fun _ => ⟨hph, hlink, ho⟩, hnotours⟩
+    cases hor : (s.hdl h).orphan with
+    | false =>
+      have hlink := hi.hO h ho hor
+      have := (hi.jC _ h hlink).2 (.inr hph)
+      exact ⟨by simp [hj, this], fun _ => ⟨hph, .inl hlink, ho⟩, hnotours⟩
+    | true =>
+      have hpx := hr.pinv.pO h hor
+      obtain ⟨_, p2, _, _, _, _, _, p8, _, _⟩ := hr.pinv.pP _ h hpx
+      exact ⟨by simp [hj, p8, p2], fun _ => ⟨hph, .inr hpx, ho⟩, hnotours⟩
 
 /-- `p_uthread_exit (code)` in a library thread records `code` for the joiner; in any other thread it returns -/
 theorem exit_records_code {s s' : State} {t : Nat} {code : Int} (hr : Reach s) (hs : step s (.exit t code) = .ok s') :
@@ -261,7 +339,7 @@ theorem exit_records_code {s s' : State} {t : Nat} {code : Int} (hr : Reach s) (
   · intro hnone
     rcases hcase with ⟨_, rfl⟩ | ⟨ho, rfl⟩
     · rw [currentCore_thr]; exact hc.1
-    · have := h1.hO _ ho; rw [hth, currentCore_thr, hnone] at this; cases this
+    · have := h1.hO _ ho (currentCore_orphan hr.pinv hi hk hpub); rw [hth, currentCore_thr, hnone] at this; cases this
   · intro h hh
     -- `p_uthread_current` yields the thread's own handle
     obtain ⟨m, p1, p2⟩ := hi.tR t h hc.1 hh
@@ -272,6 +350,29 @@ theorem exit_records_code {s s' : State} {t : Nat} {code : Int} (hr : Reach s) (
     rcases hcase with ⟨hno, _⟩ | ⟨_, rfl⟩
     · rw [hcur] at hno; simp only at hno; rw [ho] at hno; cases hno
     · rw [hcur]; simp
+
+/-- **observation about the code as it is** (a fault outside C05's quantifier: the library key's native key cannot be made
+    when the thread starts): in such a thread `p_uthread_exit (c)` does not exit and records nothing — `p_uthread_current`
+    finds an empty slot and makes a second handle that is not `ours`, so the call returns with the "unknown thread" warning —
+    and a later join of the thread's handle yields 0, not `c` (`join_of_unstored_yields_zero`; concrete witness below) -/
+theorem exit_code_lost_when_slot_unstored {s s' : State} {t h : Nat} {c : Int} (hr : Reach s) (hpx : (s.thr t).proxy = some h)
+    (hs : step s (.exit t c) = .ok s') :
+    (s'.thr t).phase = .running ∧ (s'.thr t).proxy = some h ∧ (s'.thr t).exitArg = none ∧ (s'.hdl h).retCode = 0 := by
+  have hr' : Reach s' := .step _ hr hs
+  have hrun := (exit_records_code hr hs).1 (hr.pinv.pP t h hpx).1
+  have hpx' : (s'.thr t).proxy = some h := by
+    obtain ⟨n, _, _, _, _, ⟨_, rfl⟩ | ⟨_, rfl⟩⟩ := exit_ok hs
+    · rw [currentCore_thr]; exact hpx
+    · simp [upd] at hrun
+  obtain ⟨_, p2, _, _, _, _, _, p8, _, _⟩ := hr'.pinv.pP t h hpx'
+  exact ⟨hrun, hpx', p2, p8⟩
+
+theorem join_of_unstored_yields_zero {s s' : State} {a t h : Nat} (hr : Reach s) (hpx : (s.thr t).proxy = some h)
+    (hs : step s (.join a h) = .ok s') :
+    s'.joinLog = s.joinLog ++ [(a, h, if (s.hdl h).joinable = true then 0 else -1)] := by
+  obtain ⟨_, p2, _, p4, _, _, _, _, _, _⟩ := hr.pinv.pP t h hpx
+  have := (join_code hr hs).1
+  rw [p4, p2] at this; simpa using this
 
 /-- a plain return records nothing: the joiner will see 0 -/
 theorem return_records_nothing {s s' : State} {t : Nat} (hr : Reach s) (hs : step s (.ret t) = .ok s') :
@@ -360,14 +461,40 @@ theorem destructor_exactly_once {s s' : State} (hr : Reach s) :
     obtain ⟨n, _, _, _, _, hp, rfl⟩ := setLocal_ok hs
     simp [notifyOld, setCallsNotifier]
 
-/-- no other event calls a notifier -/
+/-- no other event calls a notifier — except, under a fault, a `replace_local` whose native store fails (`storeFail`,
+    see `replace_setspecific_failure_destroys_twice`) -/
 theorem destructor_only_then {s s' : State} {e : Ev} (hs : step s e = .ok s')
-    (h1 : ∀ t k v, e ≠ .replaceLocal t k v) (h2 : ∀ t, e ≠ .threadEnd t) : s'.dtorLog = s.dtorLog := by
+    (h1 : ∀ t k v, e ≠ .replaceLocal t k v) (h2 : ∀ t, e ≠ .threadEnd t) (h4 : ∀ t k r, e ≠ .storeFail t k r) :
+    s'.dtorLog = s.dtorLog := by
   by_cases h3 : ∃ t k v, e = .setLocal t k v
   · obtain ⟨t, k, v, rfl⟩ := h3
     obtain ⟨n, _, _, _, _, hp, rfl⟩ := setLocal_ok hs
     simp [notifyOld, setCallsNotifier]
-  · exact dtorLog_frame hs h1 h2 (fun t k v e' => h3 ⟨t, k, v, e'⟩)
+  · exact dtorLog_frame hs h1 h2 (fun t k v e' => h3 ⟨t, k, v, e'⟩) h4
+
+/-- **observation about the code as it is** (a fault outside C05's quantifier: `pthread_setspecific` reporting an error):
+    `p_uthread_replace_local` passes the old non-NULL value to the notifier BEFORE it stores the new one; when the store fails
+    the destroyed value stays in the slot, and if the thread then leaves its function and ends, the notifier is called with
+    that same value a second time.  `p_uthread_set_local` with a failing store is a no-op (no notifier). -/
+theorem replace_setspecific_failure_destroys_twice {s s1 s2 s3 : State} {t k : Nat} (hr : Reach s)
+    (hs : step s (.storeFail t k true) = .ok s1) (hv : valueOf s t k ≠ 0) (hn : (s.key k).notifier = true)
+    (h2 : step s1 (.ret t) = .ok s2) (h3 : step s2 (.threadEnd t) = .ok s3) :
+    s1.dtorLog = s.dtorLog ++ [(t, k, valueOf s t k)] ∧ valueOf s1 t k = valueOf s t k ∧
+    ∃ L, s3.dtorLog = s1.dtorLog ++ L ∧ (t, k, valueOf s t k) ∈ L := by
+  have hr1 : Reach s1 := .step _ hr hs
+  have hr2 : Reach s2 := .step _ hr1 h2
+  obtain ⟨n, _, hk0, _, hwf, hp, rfl⟩ := storeFail_ok hs
+  obtain ⟨_, _, rfl⟩ := ret_ok h2
+  rw [valueOf_pub hp] at hv
+  refine ⟨by simp [notifyOld, replaceCallsNotifier, valueOf_pub hp, hv, hn], rfl, ?_⟩
+  obtain ⟨L, e1, _, e3, _⟩ := (destructor_exactly_once hr2).2.1 t h3
+  refine ⟨L, e1, (e3 t k _).mpr ⟨rfl, hn, hwf, ?_, rfl⟩⟩
+  simpa [valueOf_pub hp] using hv
+
+/-- `p_uthread_set_local` whose native store fails changes nothing at all -/
+theorem set_setspecific_failure_is_noop {s s' : State} {t k : Nat} (hs : step s (.storeFail t k false) = .ok s') : s' = s := by
+  obtain ⟨n, _, _, _, _, _, rfl⟩ := storeFail_ok hs
+  simp [notifyOld, setCallsNotifier]
 
 /-! ## lazy creation of the native key -/
 
@@ -731,6 +858,37 @@ example : (match run init [.localNew 0 true, .keyCreate 0 1, .keyCas 0 1] with
     | .ok s => step s (.tlsFail 0 1 true) | .error e => .error e) = .error .notEnabled := by rfl
 example : (match run init [.keyCreate 0 0, .keyCas 0 0, .current 0] with
     | .ok s => step s (.currentFail 0) | .error e => .error e) = .error .notEnabled := by rfl
+
+/-- the witness: thread 1 (handle 0, joinable) starts without its slot stored, calls `p_uthread_exit (7)` — which returns (the
+    call makes the foreign-style handle 1) —, returns from its function (the proxy drops the thread's reference: nothing is
+    freed, the creator still holds one), ends (handle 1 goes with the library key's destructor); the join yields 0, not 7; the
+    creator's unref frees handle 0: each handle exactly once.  With the creator's unref first, the proxy's unref is the one
+    that frees. -/
+def demoUnstored : List Ev := [
+  .createBegin 0 true false, .createEnd 0, .startUnstored 1, .keyCreate 1 0, .keyCas 1 0, .exit 1 7, .retUnstored 1 0, .threadEnd 1,
+  .join 0 0, .unref 0 0 ]
+
+example : (match run init demoUnstored with
+    | .ok s => some (s.joinLog, s.freeLog, s.dtorLog, (s.thr 1).phase, (s.hdl 0).retCode)
+    | .error _ => none) = some ([(0, 0, 0)], [1, 0], [(1, 0, 2)], .ended, 0) := by rfl
+example : checkDisc init demoUnstored = true := by rfl
+example : checkDiscT ginit demoUnstored = true := by rfl
+example : PV.UThreadSpec.obsRun init demoUnstored = PV.UThreadSpec.specRun {} demoUnstored := by rfl
+example : (match run init [.createBegin 0 false false, .createEnd 0, .startUnstored 1, .unref 0 0, .retUnstored 1 0, .threadEnd 1] with
+    | .ok s => some (s.freeLog, (s.hdl 0).refCount) | .error _ => none) = some ([0], 0) := by rfl
+/-- a stored thread does not return through the proxy's unref, an unstored one not through the plain return -/
+example : (match run init [.createBegin 0 true false, .createEnd 0, .startUnstored 1] with
+    | .ok s => step s (.ret 1) | .error e => .error e) = .error .notEnabled := by rfl
+example : (match run init [.createBegin 0 true false, .createEnd 0, .keyCreate 1 0, .keyCas 1 0, .start 1] with
+    | .ok s => step s (.retUnstored 1 0) | .error e => .error e) = .error .notEnabled := by rfl
+
+/-- the witness for `replace_setspecific_failure_destroys_twice`: thread 1 stores 5 under a key with a notifier; its
+    `replace_local (6)` fails in the native store: the notifier has run for 5, the slot still holds 5 (`get` reads 5); at the
+    thread's end the notifier runs for 5 again -/
+example : (match run init [.localNew 0 true, .createBegin 0 true false, .createEnd 0, .keyCreate 1 0, .keyCas 1 0, .start 1,
+      .keyCreate 1 1, .keyCas 1 1, .setLocal 1 1 5, .storeFail 1 1 true, .getLocal 1 1, .storeFail 1 1 false, .ret 1, .threadEnd 1] with
+    | .ok s => some (s.dtorLog.filter (fun x => x.2.1 ≠ 0), s.getLog)
+    | .error _ => none) = some ([(1, 1, 5), (1, 1, 5)], [(1, 1, 5)]) := by rfl
 
 /-- a key released with `p_uthread_local_free` while a thread still holds a value under it: the native key is
     deleted and its block freed once, and the thread's end calls no notifier for the dropped value 5 (only the
